@@ -2,6 +2,7 @@ import MaddyVerif.Model.Queue
 import MaddyVerif.Model.QueueHop
 import MaddyVerif.Model.QueueRestart
 import MaddyVerif.Model.QueueErr
+import MaddyVerif.Model.QueueDup
 import Driver.Util
 namespace Driver.C01
 open MaddyVerif.Queue Driver
@@ -245,7 +246,7 @@ def handleHop : List String → String
           -- non-ASCII local part and no SMTPUTF8 at the next hop: refused locally
           let locals := (rs.zip forms.toList).filter (fun p => (p.2 == 'l' || p.2 == 'n') && utf8 != "1") |>.map (·.1)
           let lr : Nat → Bool := fun r => locals.contains r
-          let res := runHop maxTries tk (dsn == "1") scriptAt lr dom nd (maxTries + 1) 0 ⟨rs, fun _ => 0⟩
+          let res := runHopD maxTries tk (dsn == "1") scriptAt lr dom nd (maxTries + 1) 0 ⟨rs, fun _ => 0⟩
           let cs := ",".intercalate (rs.map (fun r => s!"{r}={res.2.count r}"))
           let rp := ",".intercalate (rs.map (fun r => s!"{r}={reportCount r res.1}"))
           let rm := if res.1.any (fun e => match e with | .removed => true | _ => false) then "removed" else "NOT-REMOVED"
@@ -298,11 +299,48 @@ def parseFaults (s : String) : Option (Nat → Nat) :=
     (((String.ofList rest).splitOn ".").mapM one).map (fun (ks : List Nat) i => ks.count i)
   | _ => none
 
+/-- `H=<k>`: the header of the queued message, number `k` of the harness's table `c01Headers` -/
+def headerTable : List MaddyVerif.Queue.Header :=
+  [ [("Subject", "verif")],
+    [("Subject", "verif"), ("Auto-Submitted", "auto-generated")],
+    [("Subject", "verif"), ("Auto-Submitted", "auto-replied")],
+    [("Subject", "verif"), ("Auto-Submitted", "auto-notified; owner-email=\"o@example.org\"")],
+    [("Subject", "verif"), ("Auto-Submitted", "no")],
+    [("Subject", "verif"), ("Precedence", "bulk")],
+    [("Subject", "verif"), ("Precedence", "list"), ("List-Id", "<l.example.org>"), ("List-Unsubscribe", "<mailto:u@example.org>")],
+    [("Subject", "verif"), ("Return-Path", "<>"), ("X-Loop", "mx.example.org")],
+    [("Subject", "verif"), ("Content-Type", "multipart/report; report-type=delivery-status; boundary=b")],
+    [("Subject", "verif"), ("Content-Type", "text/plain; charset=utf-8"), ("X-Auto-Response-Suppress", "All")],
+    [],
+    [("Subject", "verif"), ("AUTO-SUBMITTED", "Auto-Generated"), ("Precedence", "junk"), ("From", "MAILER-DAEMON@example.org")] ]
+
+def parseHeader (s : String) : Option MaddyVerif.Queue.Header :=
+  match s.toList with
+  | 'H' :: '=' :: rest => (String.ofList rest).toNat? >>= (headerTable[·]?)
+  | _ => none
+
+/-- `F=<attempt><x|c|k><t|p|u>.…`: a per-recipient target files a failure under an address that is
+not in the envelope (x an unrelated one, c the converted form of a recipient, k its other-case
+form).  Validated; no part of the model reads it — that is the statement
+(`C01_commit_decision_ignores_foreign_keys`). -/
+def parseForeign (s : String) : Option Unit :=
+  match s.toList with
+  | 'F' :: '=' :: rest =>
+    let one (f : String) : Option Unit :=
+      match f.toList.reverse with
+      | c :: kd :: ds =>
+        if "tpu".toList.contains c && "xck".toList.contains kd && !ds.isEmpty
+           && (String.ofList ds.reverse).toNat?.isSome then some () else none
+      | _ => none
+    (((String.ofList rest).splitOn ".").mapM one).map (fun _ => ())
+  | _ => none
+
 structure Ext where
   restarts : Nat → Nat := fun _ => 0
   faults : Nat → Nat := fun _ => 0
   env : Env := ⟨true, false, fun _ => false⟩
   forms : List (Char × Char) := []
+  hdr : MaddyVerif.Queue.Header := [("Subject", "verif")]
 
 /-- optional tokens, told apart by their prefix; `E=` and `X=` only after an `R=` token -/
 def parseExt (rs : List Nat) (toks : List String) : Option Ext :=
@@ -317,6 +355,8 @@ def parseExt (rs : List Nat) (toks : List String) : Option Ext :=
             -- the first attempt of a running server does not read the spool
             if f 0 > 0 && rr 0 == 0 then none else some { x with faults := f })
         else if tok.startsWith "X=" then (parseForms tok).map (fun f => { x with forms := f })
+        else if tok.startsWith "H=" then (parseHeader tok).map (fun h => { x with hdr := h })
+        else if tok.startsWith "F=" then (parseForeign tok).map (fun _ => x)
         else none) { restarts := rr })
 
 end ext
@@ -338,7 +378,7 @@ def handle : List String → String
         let env := x.env
         let k := if kind == "p" then Kind.partialD else Kind.atomic
         let planAt : Nat → Plan := fun i => (ps[i]?).getD allOk
-        let res := MaddyVerif.QueueRestart.runR maxTries k (dsn == "1") env planAt restarts (maxTries + 1) 0
+        let res := MaddyVerif.QueueRestart.runRD maxTries k (dsn == "1") env x.hdr planAt restarts (maxTries + 1) 0
           (MaddyVerif.QueueRestart.accepted rs)
         " ".intercalate (res.1.filterMap showEv ++ (if res.2 then ["BROKEN"] else []))
     | _, _ => "bad-op"
